@@ -63,7 +63,7 @@ def clang_ir(src, out, defs=(), noinline=False, inline_all=False, extra=(), std=
 
 def native_build(src, out, defs=(), extra=(), std='c++11', cxx='g++', opt='-O2', pre_inc=(), objs=()):
     """the harness TU compiled natively against the REAL headers (replay / translation validation)"""
-    fl = [f for f in base_flags(std) if f not in ('-fno-vectorize', '-fno-slp-vectorize', '-fno-unroll-loops', '-Wno-everything', '-O1')]
+    fl = [f.replace('-std=c++', '-std=gnu++') for f in base_flags(std) if f not in ('-fno-vectorize', '-fno-slp-vectorize', '-fno-unroll-loops', '-Wno-everything', '-O1')]
     cmd = [cxx]
     for d in pre_inc: cmd += ['-I', d]
     cmd += fl + ['-w', opt, '-fpermissive', src] + list(objs) + ['-o', out]
@@ -269,7 +269,7 @@ def native_replay(work, h, words, tag='cex'):
     if rc < 0 or rc > 3: return 'reproduced', out + '\n[crashed rc=%d]' % rc   # crash of the real code on the model's input
     return 'not-reproduced', out
 
-def run_engine_a(pid, tier, harnesses, ev, work, known_match=None, workers=None):
+def run_engine_a(pid, tier, harnesses, ev, work, known_match=None, workers=None, custom_replay=None):
     """Runs all harnesses of the tier in parallel. Returns list of violation replay paths; raises Broken."""
     hs = [h for h in harnesses if tier in h.tiers]
     workers = workers or min(len(hs), max(1, (os.cpu_count() or 4) // 2)) or 1
@@ -308,7 +308,10 @@ def run_engine_a(pid, tier, harnesses, ev, work, known_match=None, workers=None)
                 payload = {'property': pid, 'harness': h.name, 'entry': h.entry, 'src': h.src, 'what': h.what, 'bound': h.bound, 'failed': other[:10],
                            'nondet_words': ['%016x' % w for w in words], 'defs': list(h.defs)}
                 verdict = 'candidate'
-                if h.native_replay and not h.redirect:
+                cr = custom_replay(h, res, words, payload) if custom_replay else None
+                if cr is not None:
+                    verdict = cr; ev.replays += 1
+                elif h.native_replay and not h.redirect:
                     try:
                         for k, ws in enumerate(cands[:8]):
                             verdict, out = native_replay(work, h, ws, tag='cex%d' % k); ev.replays += 1
@@ -386,3 +389,207 @@ def tv_run(work, h_src, tv_funcs, ev, defs=(), nvec=300, pre_inc=(), noinline=Fa
         ev.tv['mismatches'] += len(mm)
         raise Broken('translation validation mismatch (translated C vs real code), first: %r' % (mm[:3],))
     return True
+
+# ------------------------------------------------------------------ Engine B harness runner
+class BHarness:
+    """one symbolic-execution harness: entry `entry` (void(void), nondet_* inputs, __CPROVER_assume, __verif_check) in TU `src`"""
+    def __init__(s, name, src, entry, defs=(), noinline=False, inline_all=False, tie_free=False, monotone=False, exact_add=False, stubs=None, maxpaths=20000, maxsteps=400000,
+                 timeout=900, solver_timeout_ms=60000, what='', bound='', pre_inc=(), cflags=(), tiers=('quick', 'thorough'), std='c++11', min_paths=1, extra_exclusions=(), allow_error=False,
+                 native_replay=True, post=None, split=1):
+        s.__dict__.update(locals()); del s.__dict__['s']; s.redirect = None
+
+def _b_worker(args):
+    import irz, z3, random
+    ll, h, initial_work, seeding = args
+    t0 = time.time()
+    out = {'name': h.name, 'paths': 0, 'obl': 0, 'discharged': 0, 'unknown': 0, 'candidates': [], 'aborted': 0, 'loopbound': 0, 'queries': 0, 'solver_s': 0.0, 'samples': [],
+           'ties_excluded': 0, 'side_conditions': {}, 'functions': [], 'error': None, 'errors_reached': 0, 'tiny_sites': 0, 'exact_obl': 0}
+    try:
+        m = ir.parse_module(ll)
+        funcs = set()
+        def on_path(E, ret, status):
+            if status == 'loopbound': out['loopbound'] += 1; return
+            if status.startswith('abort'): out['aborted'] += 1
+            else: out['paths'] += 1
+            funcs.update(E.calls)
+            out['ties_excluded'] += len(E.fp.ties or [])
+            out['tiny_sites'] += len(E.fp.tiny_sites)
+            for sc in E.fp.side: out['side_conditions'][sc[0]] = out['side_conditions'].get(sc[0], 0) + 1
+            if E.errors and not h.allow_error: E.obligations.append(('cmac_error not reachable', False))
+            out['errors_reached'] += E.errors
+            # A7 side conditions: every exact addition must be representable (checked by the harness-specific post hook)
+            if h.post: h.post(E, out)
+            extra = None
+            if E.fp.tiny_sites:
+                BIG = irz.RV(Fraction(1, 2**940))
+                extra = z3.And([z3.Or(x >= BIG, x <= -BIG) for x in E.fp.tiny_sites])   # stated exclusion: guarded quantities not within 2^-940 of zero
+            res = irz.check_obligations(E, extra)
+            for (name, verdict, mdl, dt) in res:
+                out['obl'] += 1; out['solver_s'] += dt
+                if verdict == 'discharged': out['discharged'] += 1
+                elif verdict == 'unknown': out['unknown'] += 1
+                else:
+                    ws = irz.model_words(E, mdl) if mdl is not None else []
+                    if len(out['candidates']) < 40: out['candidates'].append({'obligation': name, 'words': ws, 'kinds': [k for _, k, _ in E.nondet], 'decisions': list(E.decisions)})
+                if len(out['samples']) < 6: out['samples'].append({'path_decisions': ''.join('T' if d else 'F' for d in E.decisions)[:80], 'obligation': name, 'verdict': verdict, 'solver_s': round(dt, 4)})
+        from fractions import Fraction
+        st = irz.explore(m, '@' + h.entry, lambda: irz.SymFP(monotone=h.monotone, exact_add=h.exact_add), on_path=on_path, tie_free=h.tie_free, stubs=h.stubs,
+                         maxpaths=h.maxpaths, maxsteps=h.maxsteps, timeout=h.timeout, solver_timeout_ms=h.solver_timeout_ms,
+                         initial_work=initial_work, stop_when_pending=(h.split * 6 if seeding else None))
+        out['queries'] = st['queries'] + out['obl']; out['infeasible'] = st['infeasible']; out['remaining'] = st['remaining']
+        out['functions'] = sorted(funcs)
+    except Exception as e:
+        import traceback
+        out['error'] = '%s: %s\n%s' % (type(e).__name__, e, traceback.format_exc()[-1500:])
+    out['wall'] = time.time() - t0
+    return out
+
+def perturb_words(words, kinds, rnd, k):
+    """randomised concretisations around a solver model (confirmation replays only; the verdict stays the solver's)"""
+    ws = list(words)
+    for j, kd in enumerate(kinds):
+        if kd != 'd' or j >= len(ws): continue
+        d = struct.unpack('<d', struct.pack('<Q', ws[j]))[0]
+        if k == 0: continue
+        if d == 0: nd = 0.0 if rnd.random() < 0.5 else rnd.choice([1e-3, 0.1, 0.5, 1., 2.5, 10.]) * rnd.choice([1, -1])
+        else: nd = d * rnd.choice([1., 1., 0.5, 2., 1.1, 0.9, 1e-2, 1e2, 0.37, 3.3])
+        ws[j] = struct.unpack('<Q', struct.pack('<d', nd))[0]
+    return ws
+
+def run_engine_b(pid, tier, harnesses, ev, work, known_match=None, custom_replay=None, workers=None):
+    import multiprocessing as mp, random
+    hs = [h for h in harnesses if tier in h.tiers]
+    if not hs: return [], []
+    lls = [lower(work, h) for h in hs]
+    workers = workers or min(max(len(hs), max(h.split for h in hs) * 2), os.cpu_count() or 4)
+    ctx = mp.get_context('fork')
+    with ctx.Pool(workers) as pool:
+        outs = pool.map(_b_worker, [(ll, h, None, h.split > 1) for ll, h in zip(lls, hs)], chunksize=1)
+        # second phase: harnesses whose seeding phase left unexplored prefixes are fanned out over the pool
+        tasks = []
+        for k, (h, o) in enumerate(zip(hs, outs)):
+            rem = o.get('remaining') or []
+            if rem and not o['error']:
+                for j in range(h.split * 6):
+                    chunk = rem[j::h.split * 6]
+                    if chunk: tasks.append((k, (lls[k], h, chunk, False)))
+        if tasks:
+            res2 = pool.map(_b_worker, [t for _, t in tasks], chunksize=1)
+            for (k, _), o2 in zip(tasks, res2):
+                o = outs[k]
+                for key in ('paths', 'obl', 'discharged', 'unknown', 'aborted', 'loopbound', 'queries', 'solver_s', 'ties_excluded', 'errors_reached', 'tiny_sites', 'infeasible'):
+                    o[key] = o.get(key, 0) + o2.get(key, 0)
+                o['candidates'] += o2['candidates']; o['functions'] = sorted(set(o['functions']) | set(o2['functions']))
+                for sk, sv in o2['side_conditions'].items(): o['side_conditions'][sk] = o['side_conditions'].get(sk, 0) + sv
+                if o2['error'] and not o['error']: o['error'] = o2['error']
+                o['samples'] = (o['samples'] + o2['samples'])[:8]
+    violations = []; broken = []
+    rnd = random.Random(ev.seed + 17)
+    for h, o in zip(hs, outs):
+        ev.functions.update(f[1:] for f in o['functions']); ev.functions.add(h.entry)
+        ev.bounds[h.name] = {'stated': h.bound, 'maxpaths': h.maxpaths, 'maxsteps': h.maxsteps}
+        base = {'paths': o['paths'], 'aborted_paths': o['aborted'], 'path_obligations': o['obl'], 'path_obligations_discharged': o['discharged'], 'solver_queries': o['queries'],
+                'ties_excluded': o['ties_excluded'], 'side_conditions': o['side_conditions'], 'wall_s': round(o.get('wall', 0), 1), 'path_samples': o['samples']}
+        if o['error']:
+            ev.add(h.name, h.what, h.bound, 'inconclusive', o['solver_s'], extra=base); broken.append('%s: %s' % (h.name, o['error'])); continue
+        if o['loopbound']:
+            ev.add(h.name, h.what, h.bound, 'inconclusive', o['solver_s'], extra=base); broken.append('%s: %d path(s) hit the step bound (unwinding obligation failed)' % (h.name, o['loopbound'])); continue
+        if o['paths'] < h.min_paths or o['obl'] == 0:
+            ev.witnesses[h.name] = 'UNREACHABLE'
+            ev.add(h.name, h.what, h.bound, 'inconclusive', o['solver_s'], extra=base); broken.append('%s: vacuous (paths=%d obligations=%d)' % (h.name, o['paths'], o['obl'])); continue
+        ev.witnesses[h.name] = 'reachable: %d complete paths' % o['paths']
+        if o['unknown']:
+            ev.notes.append('%s: %d obligation(s) unknown (solver timeout)' % (h.name, o['unknown']))
+        if not o['candidates'] and not o['unknown']:
+            ev.add(h.name, h.what, h.bound, 'discharged', o['solver_s'], nontrivial=o['discharged'], extra=base); continue
+        if not o['candidates'] and o['unknown']:
+            ev.add(h.name, h.what, h.bound, 'inconclusive', o['solver_s'], extra=base); broken.append('%s: %d obligations undecided (solver timeout)' % (h.name, o['unknown'])); continue
+        # candidates: replay against the natively compiled real code
+        reproduced = None; tried = 0; kf = None
+        for c in o['candidates']:
+            payload = {'property': pid, 'harness': h.name, 'entry': h.entry, 'src': h.src, 'what': h.what, 'bound': h.bound, 'obligation': c['obligation'],
+                       'nondet_words': ['%016x' % w for w in c['words']], 'defs': list(h.defs), 'engine': 'B'}
+            if custom_replay:
+                v = custom_replay(h, c, payload)
+                if v is not None:
+                    ev.replays += 1; tried += 1
+                    if v == 'reproduced': reproduced = payload; break
+                    continue
+            if not h.native_replay: continue
+            for k in range(12 if tier == 'quick' else 40):
+                ws = perturb_words(c['words'], c['kinds'], rnd, k)
+                try: verdict, outp = native_replay(work, h, ws, tag='b%d' % tried)
+                except Broken as b2: broken.append('%s: replay build failed: %s' % (h.name, b2)); verdict = 'x'; break
+                ev.replays += 1; tried += 1
+                if verdict == 'reproduced':
+                    payload['nondet_words'] = ['%016x' % w for w in ws]; payload['native_output'] = outp[-1000:]; payload['replay_verdict'] = 'reproduced'; reproduced = payload; break
+            if reproduced: break
+        if reproduced:
+            km = known_match(h, None, reproduced) if known_match else None
+            if km: ev.known_hits.append(km); ev.add(h.name, h.what, h.bound, 'known-finding', o['solver_s'], extra=base)
+            else:
+                path = save_replay(pid, h.name, reproduced); violations.append(path); ev.add(h.name, h.what, h.bound, 'violated', o['solver_s'], extra=base)
+        else:
+            ev.add(h.name, h.what, h.bound, 'inconclusive', o['solver_s'], extra=dict(base, candidates=len(o['candidates']), note='solver candidates did not reproduce natively in %d replays (abstraction too coarse for this query): no alarm' % tried))
+            ev.notes.append('%s: %d candidate(s) (first obligation: %s) not reproduced natively - inconclusive, no alarm' % (h.name, len(o['candidates']), o['candidates'][0]['obligation']))
+            if os.environ.get('VERIF_STRICT'): broken.append('%s: %d undischarged candidates: %s' % (h.name, len(o['candidates']), [c['obligation'] for c in o['candidates'][:5]]))
+    return violations, broken
+
+def tv_run_b(work, h_src, tv_funcs, ev, defs=(), nvec=60, pre_inc=(), noinline=False, inline_all=False, std='c++11', cflags=()):
+    """Engine-B translation validation: the interpreter in concrete mode (python floats) against the g++ build of the same wrappers"""
+    import random, irz
+    rnd = random.Random(ev.seed * 31 + 5)
+    class H: pass
+    h = H(); h.src = h_src; h.defs = defs; h.noinline = noinline; h.inline_all = inline_all; h.pre_inc = pre_inc; h.cflags = cflags; h.std = std
+    ll = lower(work, h); m = ir.parse_module(ll)
+    base = os.path.basename(h_src).replace('.cpp', '')
+    drv = work.path('tvb_%s_drv.c' % base)
+    body = ['#include <stdint.h>', '#include <stdio.h>', '#include <stdlib.h>', '#include <string.h>']
+    for n, k in tv_funcs: body.append('uint64_t %s(const uint64_t *in);' % n)
+    body.append('int main(int argc, char **argv){ FILE *f = fopen(argv[1], "r"); char nm[128]; int k; while (fscanf(f, "%127s %d", nm, &k) == 2) { uint64_t in[64]; for (int i = 0; i < k; i++) { unsigned long long w; if (fscanf(f, "%llx", &w) != 1) return 9; in[i] = w; } uint64_t r = 0;')
+    for n, k in tv_funcs: body.append('  if (!strcmp(nm, "%s")) r = %s(in);' % (n, n))
+    body.append('  printf("%s %016llx\\n", nm, (unsigned long long)r); } return 0; }')
+    open(drv, 'w').write('\n'.join(body))
+    drvo = work.path('tvb_%s_drv.o' % base); sh(['gcc', '-O1', '-w', '-c', drv, '-o', drvo])
+    exe = work.path('tvb_%s_real' % base)
+    native_build(os.path.join(VERIF, 'harness', h_src), exe, defs=defs, pre_inc=pre_inc, objs=[drvo, native_rt_obj(work)], extra=list(cflags), std=std)
+    vec = work.path('tvb_%s_vec.txt' % base); cases = []
+    with open(vec, 'w') as f:
+        for n, k in tv_funcs:
+            for j in range(nvec):
+                ws = []
+                for i in range(k):
+                    c = rnd.random()
+                    if c < 0.15: ws.append(struct.unpack('<Q', struct.pack('<d', rnd.choice([0.0, 1.0, -1.0, 0.5, 2.0])))[0])
+                    elif c < 0.75: ws.append(struct.unpack('<Q', struct.pack('<d', rnd.uniform(0.01, 4) * rnd.choice([1, 1, -1])))[0])
+                    elif c < 0.9: ws.append(struct.unpack('<Q', struct.pack('<d', 10 ** rnd.uniform(-6, 6)))[0])
+                    else: ws.append(rnd.randrange(0, 64))
+                cases.append((n, ws)); f.write('%s %d %s\n' % (n, k, ' '.join('%x' % w for w in ws)))
+    rc, out, err, _, _ = sh([exe, vec], timeout=120)
+    if rc: raise Broken('tv-b: native driver failed rc=%d %s' % (rc, err[-300:]))
+    native = [l.split() for l in out.strip().split('\n')]
+    mism = []
+    for (n, ws), nat in zip(cases, native):
+        fp = irz.ConcFP(); E = irz.Exec(m, fp, None, nondet_values=[]); E.branch = lambda c: bool(c)
+        arr = E.alloc(8 * len(ws))
+        for k, w in enumerate(ws): E.mem[arr[0]]['cells'][8 * k] = (w, 8)
+        try: r = irz.run_function(E, '@' + n, [arr])
+        except irz.Abort: r = None
+        except irz.Unsupported as e: raise Broken('tv-b: interpreter cannot run %s: %s' % (n, e))
+        if isinstance(r, bool): r = int(r)
+        got = '%016x' % ((r or 0) & (2**64 - 1))
+        if got != nat[1]: mism.append((n, ['%x' % w for w in ws], got, nat[1]))
+    ev.tv['programs'] += len(tv_funcs); ev.tv['vectors'] += len(cases)
+    if mism:
+        ev.tv['mismatches'] += len(mism); raise Broken('Engine-B translation validation mismatch (interpreter vs real code): %r' % (mism[:2],))
+    return True
+
+def generic_replay(path, harnesses):
+    """./check <ID> --replay <file>: re-run a stored counterexample against the natively compiled real code"""
+    d = json.load(open(path)); work = Work(d['property'] + '_replay')
+    hs = [h for h in harnesses if h.name == d['harness']]
+    if not hs: print('unknown harness %s' % d['harness']); return 2
+    h = hs[0]; words = [int(w, 16) for w in d.get('nondet_words', [])]
+    verdict, out = native_replay(work, h, words); work.clean()
+    print('replay of %s on the real code: %s\n%s' % (d['harness'], verdict, out[-500:]))
+    return 1 if verdict == 'reproduced' else 0
